@@ -67,6 +67,8 @@ var props = map[string]propInfo{
 	"C23": {Engine: "bgp", Quick: 8000, Thorough: 240000},
 	"C24": {Engine: "bgp", Quick: 6000, Thorough: 180000},
 	"C25": {Engine: "bgp", Quick: 6000, Thorough: 180000},
+	"C27": {Engine: "bgp", Quick: 20000, Thorough: 600000, BatchSize: 250},
+	"C28": {Engine: "bgp", Quick: 20000, Thorough: 600000, BatchSize: 250},
 	"C29": {Engine: "bgp", Quick: 40000, Thorough: 1200000, BatchSize: 500},
 }
 
